@@ -101,6 +101,11 @@ func run(rt *rapid.T, disciplined bool) {
 		clean := !m.Dirty && !unwritten
 		switch {
 		case k < 30:
+			if k >= 8 && k < 12 && m.Resurrect(rt, "resurrect") {
+				recreates++
+				gcAfterChange = 0
+				continue
+			}
 			if k < 5 && m.Revert(rt, "revert") {
 				gcAfterChange = 0
 				continue
